@@ -71,10 +71,14 @@ CHECKS = {
              "$$token / $$user_<name>. The command -> credential table is proved on the REAL arms of process_request_obj (34 arms extracted one by one, rule "
              "R10): each keyed data command asks the guard for exactly the kind the property names (get/get-safe/watch: read, set: write, increment, remove), "
              "20 administrative / cluster commands run their operation only for an administrator session, keys / unwatch / unwatch-all / arbiter only with a "
-             "selected existing database. Complete Kani harnesses: apply_if_auth (call counter), PermissionKind letters.",
-        level_note="The decision of a stored permission list (parse + pattern match) is an uninterpreted function (iterator pipelines are out of reach for both "
-                   "back ends). Arms that are not a single guard call (Auth, UseDb, Resolve, rp) and what a closure does once allowed are NOT verified; a failed "
-                   "use-db leaving the selection untouched is covered by the bounded sweep only.",
+             "selected existing database; the UseDb, Auth and Resolve arms are verified with their own bodies (a refused use-db leaves database and user selection untouched; "
+             "the admin flag needs user AND password; resolve needs write access to the key). The decision of a stored permission list is proved on the REAL parsing and "
+             "matching code (unit permissions: Permission::permissions_from_str, Permission::from, PermissionKind::from(char), the two nested `.any(..)` closures of "
+             "has_permission verbatim): a list grants (key, kind) iff one of its `|`-separated statements lists the kind among its letters and one of its comma-separated "
+             "patterns matches the key, each pattern with its own prefix* / *suffix / contains matcher. Complete Kani harnesses: apply_if_auth (call counter), PermissionKind letters.",
+        level_note="std's str::split / splitn are uninterpreted (the pieces they yield), the iterator adapters are trusted shims over the closures' contracts (R11), fn pointers "
+                   "are defunctionalised (R12). The rp arm and what a closure does once allowed are NOT verified; mid-session changes of a permission list are covered by the "
+                   "bounded sweep (family permchange) - has_permission reads the stored list on every call, which is what its contract states.",
     ),
     "C12": dict(
         engine="verus-units+kani", design_ref="DESIGN.md §5 C12", technique="deductive verification (Verus/Z3) with loop invariants over an abstract file model; complete Kani harness for the op-kind codec",
